@@ -57,3 +57,23 @@ theorem text_revcomp_digitize (a : Alphabet) (comp : List Nat) (h : TextCompOK a
   rfl
 
 end EaselModel.Alphabet.Sq
+
+namespace EaselModel.Alphabet.Sq
+open EaselModel.Alphabet EaselModel.Alphabet.Alphabet
+
+/-- lower-case of an upper-case letter, other bytes unchanged -/
+def lowerOf (c : Nat) : Nat := if 65 ≤ c ∧ c ≤ 90 then c + 32 else c
+
+/-- "for every symbol": textising code `x`, complementing the character with the text-mode switch and digitising it again
+    gives the digital complement of `x`, in upper and in lower case -/
+def TextCompSymbols (a : Alphabet) (comp : List Nat) : Prop :=
+  ∀ x, x < a.Kp →
+    (compChar (a.symAt x)).bind a.code = some (compAt comp x) ∧
+    (compChar (lowerOf (a.symAt x))).bind a.code = some (compAt comp x) ∧
+    (compChar (lowerOf (a.symAt x))).map lowerOf = compChar (lowerOf (a.symAt x)) ∧
+    ((compChar (a.symAt x)).map lowerOf = compChar (lowerOf (a.symAt x)))
+
+instance (a : Alphabet) (comp : List Nat) : Decidable (TextCompSymbols a comp) := by
+  unfold TextCompSymbols; infer_instance
+
+end EaselModel.Alphabet.Sq
